@@ -196,9 +196,15 @@ pub fn version_request_valid(r: &Request, emitted: Ver) -> Result<(), String> {
 
 /// ZIP 317's standard P2PKH input size.
 pub const P2PKH_IN: usize = 150;
-/// Upper bound for a 2-of-3 P2SH multisig input: outpoint 36 + CompactSize(256) 3 +
-/// scriptSig (OP_0 + 2 * (1 + 73) + PUSHDATA1 len 105-byte redeem script = 256) + sequence 4.
-pub const P2SH_2OF3_IN: usize = 36 + 3 + (1 + 2 * 74 + 2 + 105) + 4;
+/// Upper bound for an m-of-n P2SH multisig input, as the library documents it: outpoint 36 +
+/// CompactSize(len) + scriptSig (OP_0 + m * (1 + 73) + push of the (3 + 34 n)-byte redeem script)
+/// + sequence 4.
+pub fn p2sh_in_size(m: usize, n: usize) -> usize {
+    let redeem = 3 + 34 * n;
+    let push = redeem + if redeem <= 75 { 1 } else if redeem <= 255 { 2 } else { 3 };
+    let script = 1 + m * 74 + push;
+    36 + compact_size_len(script) + script + 4
+}
 
 #[derive(Clone, Debug, Default, PartialEq, Eq)]
 pub struct Shape {
@@ -502,7 +508,7 @@ pub fn check_contents<A: Authorization>(
             if let Some(t) = r.t_in.iter().find(|t| t.outpoint == *op) {
                 t_value += t.value as i128;
                 obs.shape.t_in_sizes.push(match t.kind {
-                    TInKind::P2sh => P2SH_2OF3_IN,
+                    TInKind::P2sh { ms, .. } => p2sh_in_size(w.multisigs[ms].m, w.multisigs[ms].n()),
                     _ => P2PKH_IN,
                 });
             }
@@ -780,6 +786,59 @@ pub struct SigObs {
     pub p2sh_verified: u64,
     /// (input index, hash type, digest the signature was verified under, script code)
     pub digests: Vec<(usize, u8, [u8; 32], Vec<u8>)>,
+    /// inputs whose scriptSig + scriptPubKey the zcash_script interpreter accepted
+    pub interp_p2pkh: u64,
+    pub interp_p2sh: u64,
+    pub interp_p2sh_unsorted: u64,
+    pub interp_p2sh_surplus: u64,
+    /// nLockTime and per-input nSequence of the transaction being judged (for the interpreter)
+    pub lock_time: u32,
+    pub sequences: Vec<u32>,
+}
+
+impl SigObs {
+    pub fn new() -> Self {
+        SigObs {
+            p2pkh_verified: 0,
+            p2sh_verified: 0,
+            digests: vec![],
+            interp_p2pkh: 0,
+            interp_p2sh: 0,
+            interp_p2sh_unsorted: 0,
+            interp_p2sh_surplus: 0,
+            lock_time: 0,
+            sequences: vec![],
+        }
+    }
+}
+
+/// Runs scriptSig + scriptPubKey through the `zcash_script` interpreter (all verification flags),
+/// with `sighash` supplying the digest for (script code, hash type byte).
+pub fn interpret(
+    script_sig: &[u8],
+    script_pubkey: &[u8],
+    lock_time: u32,
+    sequence: u32,
+    sighash: &dyn Fn(&Script, u8) -> [u8; 32],
+) -> Result<bool, String> {
+    use zcash_script::signature::SignedOutputs;
+    let calc = |code: &zcash_script::script::Code, ht: &zcash_script::signature::HashType| -> Option<[u8; 32]> {
+        let base = match ht.signed_outputs() {
+            SignedOutputs::All => 1u8,
+            SignedOutputs::None => 2,
+            SignedOutputs::Single => 3,
+        };
+        let byte = base | if ht.anyone_can_pay() { 0x80 } else { 0 };
+        Some(sighash(&Script(code.clone()), byte))
+    };
+    let checker = zcash_script::interpreter::CallbackTransactionSignatureChecker {
+        sighash: &calc,
+        lock_time: lock_time.into(),
+        is_final: sequence == 0xFFFF_FFFF,
+    };
+    zcash_script::script::Raw::from_raw_parts(script_sig.to_vec(), script_pubkey.to_vec())
+        .eval(zcash_script::interpreter::Flags::all(), &checker)
+        .map_err(|e| format!("{e:?}"))
 }
 
 /// Verifies the scriptSig of every transparent input of `td` under the coin it spends.
@@ -796,8 +855,72 @@ pub fn check_signatures_with<F: Fn(usize, u8, &Script, &TxOut) -> [u8; 32]>(
     let mut out = vec![];
     for (i, ((k, coin), ss)) in spent.iter().zip(script_sigs.iter()).enumerate() {
         let spk = coin.script_pubkey().0.0.clone();
+        // (0) a separately-signed defect of the zcash_script dependency (0.4.3): the length prefix of
+        // OP_PUSHDATA1/2/4 is written as a *script number*, so a push of 128..=255 bytes (e.g. the
+        // 139-byte redeem script of a 4-key multisig) becomes `4c <len> 00 <data>`: the scriptSig
+        // is corrupt. Reported under its own class; the generic checks below would only repeat it.
+        if let TInKind::P2sh { ms, .. } = &r.t_in[*k].kind {
+            let rb = &w.multisigs[*ms].redeem_bytes;
+            if (128..=255).contains(&rb.len()) && ss.ends_with(rb) && ss.len() >= rb.len() + 3 {
+                let pre = &ss[ss.len() - rb.len() - 3..ss.len() - rb.len()];
+                if pre == [0x4c, rb.len() as u8, 0x00] {
+                    out.push((
+                        "scriptsig-corrupt:pushdata1-length-written-as-script-number".into(),
+                        format!(
+                            "input {i}: the {}-byte redeem script of a {}-of-{} multisig is pushed as `4c {:02x} 00 ..` (length {} encoded as a script number by zcash_script's LargeValue serialiser): the scriptSig is not a valid script",
+                            rb.len(),
+                            w.multisigs[*ms].m,
+                            w.multisigs[*ms].n(),
+                            rb.len(),
+                            rb.len()
+                        ),
+                    ));
+                    continue;
+                }
+            }
+        }
+        // (1) the script interpreter of the zcash_script crate, as a node would run it
+        {
+            let seq = so.sequences.get(i).copied().unwrap_or(0xFFFF_FFFF);
+            let verdict = interpret(ss, &spk, so.lock_time, seq, &|code, ht| sighash(i, ht, code, coin));
+            let kind = match &r.t_in[*k].kind {
+                TInKind::P2sh { .. } => "p2sh",
+                _ => "p2pkh",
+            };
+            match verdict {
+                Ok(true) => match &r.t_in[*k].kind {
+                    TInKind::P2sh { ms, signers } => {
+                        so.interp_p2sh += 1;
+                        if w.multisigs[*ms].unsorted() {
+                            so.interp_p2sh_unsorted += 1;
+                        }
+                        if signers.len() > w.multisigs[*ms].m {
+                            so.interp_p2sh_surplus += 1;
+                        }
+                    }
+                    _ => so.interp_p2pkh += 1,
+                },
+                other => {
+                    let extra = match &r.t_in[*k].kind {
+                        TInKind::P2sh { ms, signers } => format!(
+                            " ({}-of-{} multisig, key order {}, signers (script positions, signing order) {:?})",
+                            w.multisigs[*ms].m,
+                            w.multisigs[*ms].n(),
+                            w.multisigs[*ms].order,
+                            signers
+                        ),
+                        _ => String::new(),
+                    };
+                    out.push((
+                        format!("script-evaluation-fails:{kind}"),
+                        format!("input {i} of {}: scriptSig + scriptPubKey of the coin evaluate to {other:?} in the zcash_script interpreter{extra}", spent.len()),
+                    ));
+                }
+            }
+        }
+        // (2) the harness's own reading of the scriptSig
         let Some(pushes) = parse_pushes(ss) else {
-            out.push(("scriptsig-not-push-only".into(), format!("input {i}")));
+            out.push(("scriptsig-not-push-only".into(), format!("input {i}: scriptSig {}", hex::encode(ss))));
             continue;
         };
         match r.t_in[*k].kind {
@@ -835,7 +958,7 @@ pub fn check_signatures_with<F: Fn(usize, u8, &Script, &TxOut) -> [u8; 32]>(
                     ));
                 }
             }
-            TInKind::P2sh => {
+            TInKind::P2sh { .. } => {
                 // OP_0 sig.. redeem
                 if pushes.len() < 3 || !pushes[0].is_empty() {
                     out.push(("scriptsig-shape:p2sh".into(), format!("input {i}: {} pushes", pushes.len())));
@@ -907,6 +1030,8 @@ pub fn check_signatures_tx(
         return vec![]; // already reported as transparent-inputs
     };
     let script_sigs: Vec<Vec<u8>> = tb.vin.iter().map(|i| i.script_sig().0.0.clone()).collect();
+    so.lock_time = tx.lock_time();
+    so.sequences = tb.vin.iter().map(|i| i.sequence()).collect();
     let td = to_sig_auth(tx.clone().into_data(), spent.iter().map(|c| c.1.clone()).collect());
     let digests = td.digest(TxIdDigester);
     let tbs = td.transparent_bundle().expect("present");
@@ -952,6 +1077,8 @@ pub fn check_signatures_effects(
         return vec![];
     };
     let digests = effects.digest(TxIdDigester);
+    so.lock_time = effects.lock_time();
+    so.sequences = tb.vin.iter().map(|i| i.sequence()).collect();
     check_signatures_with(
         w,
         r,
